@@ -1,8 +1,9 @@
 #!/usr/bin/env python3
 """Regenerates checks/c17/corpus.json and findings.d/C17.jsonl from the replay files of a COMPLETE run of
 `bin/check C17` on the pinned tree (every VIOLATION of that run was triaged by hand as a genuine goja defect; the
-root-cause table below is the result of that triage). Usage: empty findings.d/C17.jsonl, run bin/check C17 with a
-budget large enough to finish, then run this script."""
+root-cause table below is the result of that triage). Usage: empty findings.d/C17.jsonl AND put "[]" into
+checks/c17/corpus.json (otherwise stale corpus cases re-create their own entries), run bin/check C17 with a budget
+large enough to finish (exhaustive=true), then run this script."""
 import glob
 import json
 import re
@@ -22,8 +23,8 @@ ROOT = [
     (r"^call\.set\(arraylike\)", "set(arrayLike) converts each value after the index/detach validation: a valueOf that detaches the target makes the store land in the detached buffer's former backing slice (23.2.3.26.2 converts first, then validates)"),
     (r"^call\.set\(typedarray\)\|.*go-panic", "set(typedArray) with an empty source of another element type whose window ends at the end of its buffer takes &data[len(data)]: Go panic 'index out of range' escapes to the host"),
     (r"^call\.set\(typedarray\)\|.*outcome", "set(typedArray) detects a BigInt/Number content-type mix only when converting an element: with an empty source no TypeError is thrown"),
-    (r"^call\.(sort|toSorted)\|att\|fx=-", "sort/toSorted treat a comparator result of -0 as negative (spec: only v < 0 orders a before b), so a comparator that always returns -0 reverses the array"),
     (r"^call\.sort\|att\|fx=T", "sort sorts in place: a comparator that throws part-way leaves the array partially reordered (23.2.3.29 sorts a list of the values and writes back only after the sort completed)"),
+    (r"^call\.toLocaleString", "toLocaleString has no ValidateTypedArray step of its own: on a zero-length view over a detached buffer it returns \"\" instead of throwing TypeError (23.2.3.31 step 2)"),
     (r"^ctor\.dataview", "new DataView(buffer, offset, length) re-validates offset+length against the buffer after ToIndex(length) detached it and throws RangeError; 25.3.2.1 validates against the length read before and throws TypeError at step 10"),
     (r"^ctor\.typedarray", "new TA(typedArray) detects a BigInt/Number content-type mix only when converting an element: new BigInt64Array(new Int16Array(0)) does not throw TypeError"),
     (r"^elem\.define\{empty\}", "Object.defineProperty(ta, index, {}) (descriptor without value) passes a nil Value to _putIdx: nil-pointer Go panic escapes (BigInt arrays: TypeError 'Cannot convert <nil> to a BigInt') instead of returning true"),
